@@ -52,6 +52,7 @@ func checkC06(c *Ctx) {
 	checkBufferReread(c)
 	checkStaleTriple(c, "C06.stale-cursor")
 	checkRound5Small(c, "C06")
+	checkC06InitClamps(c)
 	checkDoubledOperatorCancels(c, "C06.doubled-operator-cancels")
 	r.Rule("C06.no-reflection", "K6", "no package of the module imports reflect or unsafe (call-graph and write inventories are sound)", 1)
 	{
